@@ -2570,6 +2570,11 @@ fn core_word_str_to_num(xs: &mut State) -> Xresult {
             substr: s.substr(..),
         })?;
         xs.push_data(Cell::Real(r))
+    } else if !(2..=36).contains(&base) {
+        Err(Xerr::ParseError {
+            msg: crate::lex::PARSE_INT_ERRMSG,
+            substr: s.substr(..),
+        })
     } else {
         let i = Xint::from_str_radix(&s, base).map_err(|_|
             Xerr::ParseError {
